@@ -139,32 +139,39 @@ def _walk_obj(o, out: list, memo: dict, depth: int) -> None:
         out.extend(sorted(parts))
         out.append("}")
         return
+    info = _TYPE_INFO.get(t)
+    if info is None:
+        slots = []
+        for klass in t.__mro__:
+            sl = klass.__dict__.get("__slots__", ())
+            if isinstance(sl, str):
+                sl = (sl,)
+            slots.extend(x for x in sl if x not in ("__dict__", "__weakref__"))
+        info = (f"<{t.__module__}.{t.__qualname__}", tuple(sorted(slots)), frozenset(getattr(t, "_xmc_skip_", ())))
+        _TYPE_INFO[t] = info
+    header, slots, skip = info
     d = getattr(o, "__dict__", None)
-    slots = []
-    for klass in t.__mro__:
-        s = klass.__dict__.get("__slots__", ())
-        if isinstance(s, str):
-            s = (s,)
-        slots.extend(x for x in s if x not in ("__dict__", "__weakref__"))
     if d is None and not slots:
         if callable(o):
             out.append("T" + getattr(o, "__qualname__", repr(t)))
             return
         raise CanonError(f"cannot canonicalise {t!r}: {o!r}")
-    skip = getattr(t, "_xmc_skip_", ())
-    out.append(f"<{t.__module__}.{t.__qualname__}")
+    out.append(header)
     if d is not None:
         for k in sorted(d):
             if k in skip:
                 continue
             out.append(" " + k + "=")
             _walk(d[k], out, memo, depth + 1)
-    for k in sorted(slots):
+    for k in slots:
         if k in skip or not hasattr(o, k):
             continue
         out.append(" " + k + "=")
         _walk(getattr(o, k), out, memo, depth + 1)
     out.append(">")
+
+
+_TYPE_INFO: dict = {}
 
 
 def canon_str(*objs) -> str:
